@@ -63,6 +63,8 @@ W = [
          input=J({'x': 1, 'k': 'a'}, {'x': 2, 'k': 'a'}), json_lines=[[{'s': 1}]]),
     dict(id='space-after-not', commit='7a275bd', props=['C20', 'C04'], query='* | json | where ! isNull(x) | count',
          input=J({'x': 1}, {'y': 2}), json_lines=[[{'_count': 1}]]),
+    dict(id='percentile-column-expression', commit='939a4f9', props=['C20', 'C04'], query='* | json | p90(x), p10(x) | p90 - p10 as spread | fields spread',
+         input=J({'x': 1}, {'x': 5}, {'x': 9}), json_lines=[[{'spread': 8}]]),
 ]
 
 
